@@ -108,7 +108,7 @@ func (c *c19) scalar(kind string, val []byte) {
 }
 
 func (c *c19) hdr(kind string, a, b2, n int, name []byte, seq []byte) {
-	ev := map[string]interface{}{"ev": "Hdr", "kind": kind, "a": a, "b2": b2, "n": n, "name": B(name), "seq": B(seq)}
+	ev := map[string]interface{}{"ev": "Hdr", "kind": kind, "a": a, "b2": b2, "n": n, "name": B(name), "seq": B(seq), "backed": true}
 	rr := map[string]interface{}{"st": "skipped", "n": 0, "a": 0, "b2": 0, "num": 0, "name": B{}, "seq": B(seq)}
 	func() {
 		defer func() {
@@ -141,7 +141,20 @@ func (c *c19) hdr(kind string, a, b2, n int, name []byte, seq []byte) {
 		ev["wst"] = st(err)
 		enc := append([]byte{}, p.Buf...)
 		ev["enc"] = B(enc)
-		r := thrift.NewBinaryProtocol(append(append([]byte{}, enc...), 0xAA, 0xBB, 0xCC))
+		// a container header is followed by its elements: the reader may check the count against the bytes that
+		// are left, so the header is read with that many (smallest possible) elements behind it when feasible
+		pad, backed := 0, true
+		switch kind {
+		case "list", "set":
+			pad = n
+		case "map":
+			pad = 2 * n
+		}
+		if pad < 0 || pad > 200000 {
+			pad, backed = 0, false
+		}
+		ev["backed"] = backed
+		r := thrift.NewBinaryProtocol(append(append(append([]byte{}, enc...), make([]byte, pad)...), 0xAA, 0xBB, 0xCC))
 		switch kind {
 		case "field":
 			_, t, id, e := r.ReadFieldBegin()
